@@ -136,6 +136,7 @@ pub fn c11_case(fam: &str, idx: usize, seed: u64) -> Option<Case> {
                 plant: vec![],
         dropper: None,
         seq_start: None,
+        preset_ids: vec![],
             };
             if burst {
                 sc.paced = false;
